@@ -80,7 +80,8 @@ Records(w, p, n, i, sec, opt) ==
         THEN [recs |-> <<>>, fatal |-> Fatal(s, s), next |-> p, opt |-> opt]
     ELSE LET v == IF type = TyTSIG THEN "signed" ELSE RdataVerdict(w, type, cls, s, s + rdlen)
              me == [sec |-> sec, type |-> type, v |-> v, lo |-> s, hi |-> s + rdlen]
-             r == Records(w, s + rdlen, n, i + 1, sec, opt \/ type = TyOPT)
+             \* an OPT whose RDATA was refused has not been taken: a later one is the first
+             r == Records(w, s + rdlen, n, i + 1, sec, opt \/ (type = TyOPT /\ v # "bad"))
          IN [recs |-> <<me>> \o r.recs, fatal |-> r.fatal, next |-> r.next, opt |-> r.opt]
 
 RECURSIVE Questions(_, _, _)
@@ -116,11 +117,18 @@ RECURSIVE RecFails(_)
 RecFails(rs) == IF rs = <<>> THEN <<>>
                 ELSE (IF rs[1].v = "ok" THEN <<>> ELSE <<RecFail(rs[1])>>) \o RecFails(Tail(rs))
 Must(f) == [lo |-> f.lo, hi |-> f.hi, must |-> TRUE]
+\* The offset noted for a failure that ends the reading is that of the furthest octet READ:
+\* when the RDATA before it was skipped (not read) after a failure of its own, that is
+\* somewhere in the skipped RDATA.  So the range of the ending failure reaches back to the
+\* last record failure.
+Back(f, rf) == IF rf = <<>> THEN Must(f)
+               ELSE [lo |-> IF rf[Len(rf)].lo < f.lo THEN rf[Len(rf)].lo ELSE f.lo, hi |-> f.hi, must |-> TRUE]
 Failures(m, o) ==
     IF ~m.qok THEN <<Must(m.fatal[1])>>
     ELSE IF o[3] = 1 THEN <<>>
-    ELSE RecFails(m.recs) \o (IF m.fatal # <<>> THEN <<Must(m.fatal[1])>> ELSE <<>>)
-                          \o (IF m.trail # <<>> /\ o[1] = 0 THEN <<Must(m.trail[1])>> ELSE <<>>)
+    ELSE LET rf == RecFails(m.recs) IN
+         rf \o (IF m.fatal # <<>> THEN <<Back(m.fatal[1], rf)>> ELSE <<>>)
+            \o (IF m.trail # <<>> /\ o[1] = 0 THEN <<Must(m.trail[1])>> ELSE <<>>)
 AnyMust(fs) == \E i \in 1..Len(fs) : fs[i].must
 Signed(m) == \E i \in 1..Len(m.recs) : m.recs[i].type = TyTSIG
 GoodCount(m, sec) == Cardinality({i \in 1..Len(m.recs) : m.recs[i].sec = sec /\ m.recs[i].v = "ok"})
